@@ -15,8 +15,8 @@ for g in ("A","B","C","D","E","F","G","H","I","J","K","L","M","N","O","P","Q"):
         props=sorted(set(p for p in r["properties"] if p!="C06"))
         if not props:
             # no properties named by the author: every check that has a function of a touched file under contract
-            FILES={"acse.py":"C07 C10 C11 C12 C13 C14 C24 C26","ae.py":"C11 C12 C14","pdu.py":"C01 C02 C10 C11 C13","pdu_items.py":"C01 C02 C10 C11 C13",
-                   "dul.py":"C02 C03 C05 C08 C09 C27","transport.py":"C03 C05 C08 C27","association.py":"C07 C08 C09 C18 C19 C20 C23 C24",
+            FILES={"acse.py":"C07 C08 C10 C11 C12 C13 C14 C24 C26 C27","ae.py":"C11 C12 C14","pdu.py":"C01 C02 C10 C11 C13","pdu_items.py":"C01 C02 C10 C11 C13",
+                   "dul.py":"C02 C03 C05 C08 C09 C27","transport.py":"C03 C05 C08 C27","association.py":"C07 C08 C09 C18 C19 C20 C23 C24 C27",
                    "utils.py":"C02 C12","_validators.py":"C12","dimse.py":"C02 C08 C15 C17 C23","dimse_messages.py":"C15 C16 C17 C19 C25",
                    "service_class.py":"C07 C20 C21 C22 C23 C26 C28","handlers.py":"C30","common.py":"C30","db.py":"C29","dsutils.py":"C21 C25",
                    "timer.py":"C04 C05 C09","events.py":"C13 C26","fsm.py":"C04 C05 C07 C27","presentation.py":"C10 C11 C12","status.py":"C28"}
